@@ -51,7 +51,9 @@ def setup(part):
 
 
 def _apply(w, inp, ev, fault, tag_acc):
-    w.tr.fail = (lambda i: True) if fault else None
+    from aiomysensors.exceptions import TransportError
+
+    w.tr.fail = (lambda i: (TransportError if inp.bool("fault_base_%d" % len(tag_acc)) else True)) if fault else None
     before_markers = len(w.st.markers)
     kind, val, writes = w.feed(M.line(*ev))
     out, mwrites = M.step(w.st, *ev, conv=("ok", 55 if ev[4] == 0 else 10), fail_write=fault)
